@@ -103,3 +103,854 @@ def gen_attr(ctx):
     ctx.write_generated("Attr", "\n".join(L) + "\n")
     return {"blend_modes": len(t["blend"]), "protected_flags": t["protected"],
             "record_defaults": {h: sum(1 for _, x in t["defaults"] if x == h) for h in sorted({x for _, x in t["defaults"]})}}
+
+
+# =====================================================================================================
+# Part 2: the accessor table -> Generated/AttrTable.lean
+#
+# For every public attribute of `Layer` and its subclasses (reflection over the LIVE classes: every property that
+# has a setter in some layer class, plus public methods whose flattened body assigns attribute storage - `lock`,
+# `unlock`) and for every layer class (classes with identical rows are emitted once, `classes` maps each class to
+# its representative) one row:
+#   reads   the getter's read path, a priority list of locations (record field / attribute of an element of the
+#           record / attribute of the data element of a tagged block, the block named by its Tag member or by the
+#           keys an intermediate property such as `_setting` selects, in its order of precedence / derived)
+#   effs    the setter's effects in source order (see Model/AttrTable.lean `Eff`), `self.<attr> = ...` resolved
+#           through the MRO of the ROW's class and inlined (a property without setter: refusal)
+# and for the writers (`TaggedBlock.write`, `TaggedBlocks.write`, `LayerRecord.write` and what they call on self,
+# the `write` of the element classes of the attribute blocks): every attribute of self they read that is not an
+# attrs constructor field, a method or a class constant (caches), and every attribute they assign.
+# A small symbolic evaluator over the AST (classes/methods indexed by extract_c15._Api); what it does not understand
+# becomes `.other`, which `tableOk` rejects - a changed source never raises.
+# =====================================================================================================
+import ast
+import inspect
+import re
+import textwrap
+
+from extract_c15 import _Api, _lstr
+
+# ---- symbolic values ---------------------------------------------------------------------------------
+# ("self",) ("rec",) ("blocks",) ("psd",) ("field", f) ("elem", f, a) ("blk", keys) ("bd", keys) ("ba", keys, attr)
+# ("arg", j|None) ("const", src) ("tuple", [v...]) ("prio", [v...]) ("derived", src, [reads]) ("unknown", src)
+
+
+def _tagname(node):
+    s = ast.unparse(node)
+    m = re.fullmatch(r"Tag\.([A-Z0-9_]+)", s)
+    return m.group(1) if m else None
+
+
+def _value_attr(keys):
+    """attribute through which `get_data` / `set_data` see the element of this block: `value` for ValueElement classes"""
+    try:
+        from psd_tools.constants import Tag
+        from psd_tools.psd.base import ValueElement
+        from psd_tools.psd.tagged_blocks import TYPES
+        kls = TYPES.get(getattr(Tag, keys[0]))
+        return "value" if (kls is not None and issubclass(kls, ValueElement)) else "*"
+    except Exception:  # noqa
+        return "*"
+
+
+def _elem_class(keys):
+    try:
+        from psd_tools.constants import Tag
+        from psd_tools.psd.tagged_blocks import TYPES
+        return TYPES.get(getattr(Tag, keys[0]))
+    except Exception:  # noqa
+        return None
+
+
+def _locs(v):
+    """locations a symbolic value is read from, in priority order"""
+    k = v[0]
+    if k == "field":
+        return [("field", v[1])]
+    if k == "elem":
+        return [("elem", v[1], v[2])]
+    if k in ("bd", "blk"):
+        return [("block", "|".join(v[1]), _value_attr(v[1]))]
+    if k == "ba":
+        return [("block", "|".join(v[1]), v[2])]
+    if k in ("tuple", "prio"):
+        out = []
+        for x in v[1]:
+            out += [l for l in _locs(x) if l not in out]
+        return out
+    if k == "derived":
+        return list(v[2]) if v[2] else [("derived", v[1])]
+    if k in ("rec", "blocks"):
+        return [("other", "the whole " + k)]
+    if k == "unknown":
+        return [("other", v[1])]
+    return []          # self, psd, arg, const
+
+
+def _is_arg(v):
+    return v[0] == "arg"
+
+
+class _Acc:
+    """symbolic evaluation of the accessors of one ROW class"""
+
+    MAXD = 10
+
+    def __init__(self, api, live, row_cls):
+        self.api, self.live, self.row_cls = api, live, row_cls
+        self.mro = [c.__name__ for c in live[row_cls].__mro__ if c.__name__ in api.classes]
+        self.gid = 0
+
+    # -- resolution through the MRO of the row class ----------------------------------------------------
+    def resolve(self, name, kind, after=None):
+        mro = self.mro
+        if after is not None and after in mro:
+            mro = mro[mro.index(after) + 1:]
+        for c in mro:
+            if (c, name, kind) in self.api.methods:
+                return c
+            if kind == "setter" and (c, name, "getter") in self.api.methods:
+                return None            # the nearest definition is a property without setter (in this class body)
+            if kind in ("getter", "setter") and (c, name, "method") in self.api.methods:
+                return None
+        return None
+
+    def is_property(self, name, after=None):
+        mro = self.mro
+        if after is not None and after in mro:
+            mro = mro[mro.index(after) + 1:]
+        for c in mro:
+            if (c, name, "getter") in self.api.methods:
+                return c
+            if (c, name, "method") in self.api.methods:
+                return None
+        return None
+
+    # -- expressions -----------------------------------------------------------------------------------
+    def ev(self, node, env, cur_cls, depth=0):
+        if isinstance(node, ast.Constant):
+            return ("const", repr(node.value))
+        if isinstance(node, ast.Name):
+            if node.id in env:
+                return env[node.id]
+            return ("const", node.id) if node.id[:1].isupper() or node.id in ("None", "True", "False") else ("unknown", node.id)
+        if isinstance(node, ast.Tuple):
+            return ("tuple", [self.ev(e, env, cur_cls, depth) for e in node.elts])
+        if isinstance(node, ast.Attribute):
+            if isinstance(node.value, ast.Name) and node.value.id[:1].isupper() and node.value.id not in env:
+                return ("const", ast.unparse(node))                     # BlendMode.NORMAL, Tag.X, Clipping.BASE
+            is_super = isinstance(node.value, ast.Call) and isinstance(node.value.func, ast.Name) and node.value.func.id == "super"
+            base = ("self",) if is_super else self.ev(node.value, env, cur_cls, depth)
+            return self.attr(base, node.attr, cur_cls if is_super else None, depth, ast.unparse(node))
+        if isinstance(node, ast.Subscript):
+            base = self.ev(node.value, env, cur_cls, depth)
+            if base[0] == "tuple" and isinstance(node.slice, ast.Constant) and isinstance(node.slice.value, int) \
+                    and 0 <= node.slice.value < len(base[1]):
+                return base[1][node.slice.value]
+            if base[0] == "arg" and isinstance(node.slice, ast.Constant) and isinstance(node.slice.value, int):
+                return ("arg", node.slice.value)
+            if base[0] == "blocks":
+                k = _tagname(node.slice)
+                return ("blk", (k,)) if k else ("unknown", ast.unparse(node))
+            return ("derived", ast.unparse(node), _locs(base))
+        if isinstance(node, ast.Call):
+            return self.call_value(node, env, cur_cls, depth)
+        if isinstance(node, ast.IfExp):
+            a, b = self.ev(node.body, env, cur_cls, depth), self.ev(node.orelse, env, cur_cls, depth)
+            t = self.ev(node.test, env, cur_cls, depth)
+            argish = [x for x in (a, b, t) if _is_arg(x)]
+            if argish and all(x[0] in ("arg", "const") for x in (a, b)):
+                return argish[0]                                        # a conversion of the argument
+            return ("prio", [a, b])
+        if isinstance(node, (ast.Compare, ast.BoolOp, ast.UnaryOp)):
+            parts = [node.left] + list(node.comparators) if isinstance(node, ast.Compare) else \
+                node.values if isinstance(node, ast.BoolOp) else [node.operand]
+            vals = [self.ev(p, env, cur_cls, depth) for p in parts]
+            rd = []
+            for x in vals:
+                rd += [l for l in _locs(x) if l not in rd]
+            nonconst = [x for x in vals if x[0] != "const"]
+            if len(nonconst) == 1 and nonconst[0][0] in ("field", "elem", "ba", "bd"):
+                return nonconst[0]                                      # `record.clipping == Clipping.NON_BASE`: that field
+            return ("derived", ast.unparse(node), rd)
+        if isinstance(node, ast.BinOp):
+            vals = [self.ev(node.left, env, cur_cls, depth), self.ev(node.right, env, cur_cls, depth)]
+            rd = []
+            for x in vals:
+                rd += [l for l in _locs(x) if l not in rd]
+            return ("derived", ast.unparse(node), rd)
+        if isinstance(node, (ast.GeneratorExp, ast.ListComp)):
+            g = node.generators[0]
+            it = self.ev(g.iter, env, cur_cls, depth)
+            if len(node.generators) == 1 and _is_arg(it) and isinstance(g.target, ast.Name) and not g.ifs:
+                e2 = dict(env)
+                e2[g.target.id] = ("arg", "each")
+                el = self.ev(node.elt, e2, cur_cls, depth)
+                if el == ("arg", "each"):
+                    return ("arg", None)                                # elementwise conversion of the argument
+            return ("derived", ast.unparse(node), [])
+        return ("unknown", ast.unparse(node))
+
+    def attr(self, base, name, super_of, depth, src):
+        k = base[0]
+        if k == "self":
+            if name == "_record":
+                return ("rec",)
+            if name == "_psd":
+                return ("psd",)
+            pc = self.is_property(name, after=super_of)
+            if pc is not None:
+                if depth >= self.MAXD:
+                    return ("unknown", src)
+                return self.getter_value(pc, name, depth + 1)
+            if super_of is None and self.resolve(name, "method") is not None:
+                return ("const", "self." + name)                        # a bound method
+            return ("derived", "self." + name, [])                      # plain instance attribute (memo such as `_bbox`)
+        if k == "rec":
+            return ("blocks",) if name == "tagged_blocks" else ("field", name)
+        if k == "field":
+            return ("elem", base[1], name)
+        if k == "blk":
+            return ("bd", base[1]) if name == "data" else ("unknown", src)
+        if k == "bd":
+            return ("ba", base[1], name)
+        if k == "arg":
+            return base
+        if k == "psd":
+            return ("derived", src, [])
+        if k == "derived":
+            return ("derived", src, base[2])
+        if k in ("prio", "tuple"):
+            return ("derived", src, _locs(base))
+        return ("unknown", src)
+
+    def call_value(self, node, env, cur_cls, depth):
+        f = node.func
+        src = ast.unparse(node)
+        if isinstance(f, ast.Name):
+            args = [self.ev(a, env, cur_cls, depth) for a in node.args]
+            if f.id in ("int", "bool", "str", "bytes", "tuple", "list", "float") or f.id[:1].isupper():
+                if len(args) == 1 and (_is_arg(args[0]) or args[0][0] in ("field", "elem", "ba", "bd")):
+                    return args[0]                                      # a conversion
+                if len(args) == 1 and args[0][0] == "const":
+                    return ("const", src)
+            if f.id in ("isinstance", "len", "hasattr"):
+                return ("derived", src, [])
+            rd = []
+            for x in args:
+                rd += [l for l in _locs(x) if l not in rd]
+            return ("derived", src, rd)
+        if isinstance(f, ast.Attribute):
+            base = self.ev(f.value, env, cur_cls, depth)
+            if base[0] == "blocks" and f.attr in ("get_data", "get") and node.args:
+                key = _tagname(node.args[0])
+                if key is None:
+                    return ("unknown", src)
+                first = ("bd", (key,)) if f.attr == "get_data" else ("blk", (key,))
+                if len(node.args) > 1:
+                    d = self.ev(node.args[1], env, cur_cls, depth)
+                    if d[0] == first[0]:
+                        return (first[0], (key,) + tuple(d[1]))         # the default is another block: one selector
+                    if d[0] == "const":
+                        return first
+                    return ("prio", [first, d])
+                return first
+            if _is_arg(base):
+                return base                                             # value.encode("ascii")
+            if base[0] == "self":
+                return ("derived", src, [])
+            return ("derived", src, _locs(base))
+        return ("unknown", src)
+
+    # -- getters ---------------------------------------------------------------------------------------
+    def getter_value(self, cls, name, depth=0):
+        fn = self.api.methods[(cls, name, "getter")]
+        env = {fn.args.args[0].arg: ("self",)}
+        rets = []
+        self._getter_block(fn.body, env, cls, depth, rets)
+        rets = [r for r in rets if not (r[0] == "const" and r[1] == "None")]
+        if not rets:
+            return ("const", "None")
+        if len(rets) == 1:
+            return rets[0]
+        if all(r[0] == "bd" for r in rets):
+            keys = []
+            for r in rets:
+                keys += [k for k in r[1] if k not in keys]
+            return ("bd", tuple(keys))
+        return ("prio", rets)
+
+    def _getter_block(self, stmts, env, cls, depth, rets):
+        for st in stmts:
+            if isinstance(st, ast.Expr) and isinstance(st.value, ast.Constant):
+                continue
+            if isinstance(st, ast.Return):
+                rets.append(self.ev(st.value, env, cls, depth) if st.value is not None else ("const", "None"))
+            elif isinstance(st, (ast.Assign, ast.AnnAssign)) and st.value is not None:
+                targets = st.targets if isinstance(st, ast.Assign) else [st.target]
+                if len(targets) == 1 and isinstance(targets[0], ast.Name):
+                    env[targets[0].id] = self.ev(st.value, env, cls, depth)
+                # assignments to memo attributes of self (`self._bbox = ...`) are read back as derived
+            elif isinstance(st, ast.If):
+                self._getter_block(st.body, dict(env), cls, depth, rets)
+                self._getter_block(st.orelse, dict(env), cls, depth, rets)
+            elif isinstance(st, (ast.For, ast.While, ast.With, ast.Try)):
+                for part in ("body", "orelse", "finalbody"):
+                    self._getter_block(getattr(st, part, []) or [], dict(env), cls, depth, rets)
+            # assert / raise / pass / import: nothing is returned
+
+    def reads(self, name):
+        pc = self.is_property(name)
+        if pc is None:
+            return None
+        return self.getter_value(pc, name)
+
+    # -- guards ----------------------------------------------------------------------------------------
+    def guard(self, test, env, cls, row_reads, neg=False):
+        """-> list of (text, kind, neg) for a conjunction; a test that cannot be split is one opaque guard"""
+        if isinstance(test, ast.UnaryOp) and isinstance(test.op, ast.Not):
+            inner = self.guard(test.operand, env, cls, row_reads, not neg)
+            if len(inner) == 1:
+                return inner
+            return [(ast.unparse(test), "opaque", neg)]
+        if isinstance(test, ast.BoolOp) and isinstance(test.op, ast.And) and not neg:
+            out = []
+            for v in test.values:
+                out += self.guard(v, env, cls, row_reads, False)
+            return out
+        if isinstance(test, ast.Compare) and len(test.ops) == 1:
+            a = self.ev(test.left, env, cls)
+            b = self.ev(test.comparators[0], env, cls)
+            op = test.ops[0]
+            if isinstance(op, (ast.Is, ast.IsNot)) and b == ("const", "None") and a[0] in ("bd", "blk"):
+                return [(ast.unparse(test), "present:" + "|".join(a[1]), neg != isinstance(op, ast.Is))]
+            if isinstance(op, (ast.Eq, ast.NotEq)):
+                for x, y in ((a, b), (b, a)):
+                    ly = _locs(y)
+                    if _is_arg(x) and ly and all(l in row_reads for l in ly):
+                        return [(ast.unparse(test), "stored", neg != isinstance(op, ast.NotEq))]
+        if isinstance(test, (ast.Name, ast.Attribute, ast.Call)):
+            a = self.ev(test, env, cls)
+            if a[0] in ("bd", "blk"):
+                return [(ast.unparse(test), "present:" + "|".join(a[1]), neg)]
+        return [(ast.unparse(test), "opaque", neg)]
+
+    # -- setters / methods -----------------------------------------------------------------------------
+    def run(self, cls, fn, env, gs, via, depth, row_reads, out):
+        self.block(fn.body, env, cls, gs, via, depth, row_reads, out, in_loop=False)
+
+    def emit_write(self, out, loc, v, gs, via, in_loop):
+        if in_loop:
+            out.append(("other", "assignment to %s inside a loop" % (loc,)))
+            return
+        out.append(("write", loc, "arg" if _is_arg(v) and v[1] in (None, self.argc) else "derived", list(gs), list(via)))
+
+    def block(self, stmts, env, cls, gs, via, depth, row_reads, out, in_loop):
+        for st in stmts:
+            if isinstance(st, ast.Expr) and isinstance(st.value, ast.Constant):
+                continue
+            if isinstance(st, (ast.Pass, ast.Import, ast.ImportFrom, ast.Global, ast.Nonlocal, ast.FunctionDef)):
+                continue
+            if isinstance(st, ast.Assert):
+                g = self.guard(st.test, env, cls, row_reads, neg=True)
+                out.append(("refuse", "AssertionError", list(gs) + g))
+                continue
+            if isinstance(st, ast.Raise):
+                exc = ast.unparse(st.exc.func) if isinstance(st.exc, ast.Call) else (ast.unparse(st.exc) if st.exc else "re-raise")
+                out.append(("refuse", exc, list(gs)))
+                return
+            if isinstance(st, ast.Return):
+                out.append(("ret", list(gs)))
+                return
+            if isinstance(st, ast.If):
+                test = st.test
+                if isinstance(test, ast.BoolOp) and isinstance(test.op, ast.Or) and not st.orelse:
+                    # `if A or B: body` == `if A: body` then `if B: body` when body ends the call
+                    if st.body and isinstance(st.body[-1], (ast.Return, ast.Raise)):
+                        for v in test.values:
+                            self.block(st.body, dict(env), cls, gs + self.guard(v, env, cls, row_reads), via, depth, row_reads, out, in_loop)
+                        continue
+                g = self.guard(test, env, cls, row_reads)
+                gn = self.guard(test, env, cls, row_reads, neg=True)
+                if len(gn) != 1:
+                    gn = [(ast.unparse(test), "opaque", True)]
+                self.block(st.body, dict(env), cls, gs + g, via, depth, row_reads, out, in_loop)
+                self.block(st.orelse, dict(env), cls, gs + gn, via, depth, row_reads, out, in_loop)
+                continue
+            if isinstance(st, ast.Try):
+                self.gid += 1
+                ok = ("try%d: no exception in `%s`" % (self.gid, ast.unparse(st.body[0])[:60]), "opaque", False)
+                self.block(st.body, env, cls, gs + [ok], via, depth, row_reads, out, in_loop)
+                for h in st.handlers:
+                    self.block(h.body, dict(env), cls, gs + [(ok[0], "opaque", True)], via, depth, row_reads, out, in_loop)
+                self.block(st.orelse, env, cls, gs + [ok], via, depth, row_reads, out, in_loop)
+                self.block(st.finalbody, env, cls, gs, via, depth, row_reads, out, in_loop)
+                continue
+            if isinstance(st, (ast.For, ast.While)):
+                self.gid += 1
+                it = ast.unparse(st.iter if isinstance(st, ast.For) else st.test)
+                e2 = dict(env)
+                if isinstance(st, ast.For) and isinstance(st.target, ast.Name):
+                    e2[st.target.id] = ("unknown", st.target.id)
+                self.block(st.body, e2, cls, gs + [("loop%d over %s" % (self.gid, it[:60]), "opaque", False)], via, depth, row_reads, out, True)
+                continue
+            if isinstance(st, ast.With):
+                self.block(st.body, env, cls, gs, via, depth, row_reads, out, in_loop)
+                continue
+            if isinstance(st, (ast.Assign, ast.AnnAssign, ast.AugAssign)):
+                if st.value is None:
+                    continue
+                self.calls_in(st.value, env, cls, gs, via, depth, row_reads, out, in_loop)
+                val = self.ev(st.value, env, cls) if not isinstance(st, ast.AugAssign) else ("derived", ast.unparse(st), [])
+                targets = st.targets if isinstance(st, ast.Assign) else [st.target]
+                for t in targets:
+                    self.assign(t, val, env, cls, gs, via, depth, row_reads, out, in_loop, ast.unparse(st))
+                continue
+            if isinstance(st, ast.Expr):
+                self.calls_in(st.value, env, cls, gs, via, depth, row_reads, out, in_loop)
+                continue
+            if isinstance(st, ast.Delete):
+                out.append(("other", ast.unparse(st)))
+                continue
+            if isinstance(st, (ast.Break, ast.Continue)):
+                continue
+            out.append(("other", "statement " + type(st).__name__))
+
+    def assign(self, t, val, env, cls, gs, via, depth, row_reads, out, in_loop, src):
+        if isinstance(t, (ast.Tuple, ast.List)):
+            for j, e in enumerate(t.elts):
+                if val[0] == "tuple" and j < len(val[1]):
+                    v = val[1][j]
+                elif _is_arg(val) and val[1] is None:
+                    v = ("arg", j)
+                else:
+                    v = ("derived", src, [])
+                self.assign(e, v, env, cls, gs, via, depth, row_reads, out, in_loop, src)
+            return
+        if isinstance(t, ast.Name):
+            env[t.id] = val
+            return
+        if isinstance(t, ast.Subscript):
+            base = self.ev(t.value, env, cls)
+            if base[0] in ("self", "psd", "derived", "const", "arg", "unknown") and "_record" not in src and "tagged_blocks" not in src:
+                out.append(("call", src[:80], list(gs)))
+            else:
+                out.append(("other", src[:120]))
+            return
+        if not isinstance(t, ast.Attribute):
+            out.append(("other", src[:120]))
+            return
+        base = self.ev(t.value, env, cls)
+        k = base[0]
+        if k == "self":
+            pc = self.is_property(t.attr)
+            if pc is None:
+                if t.attr in ("_record",):
+                    out.append(("other", src[:120]))
+                else:
+                    out.append(("call", "self.%s = ..." % t.attr, list(gs)))       # memo / pointer on the layer object
+                return
+            sc = self.resolve(t.attr, "setter")
+            if sc is None:
+                out.append(("refuse", "AttributeError: property %s.%s has no setter" % (pc, t.attr), list(gs)))
+                return
+            if depth >= self.MAXD:
+                out.append(("other", "setter nesting too deep at " + src[:80]))
+                return
+            fn = self.api.methods[(sc, t.attr, "setter")]
+            params = [a.arg for a in fn.args.args]
+            e2 = {params[0]: ("self",)}
+            if len(params) > 1:
+                e2[params[1]] = val if (_is_arg(val) or val[0] in ("const", "tuple")) else ("derived", src, [])
+            self.block(fn.body, e2, sc, gs, via + ["%s.%s.setter" % (sc, t.attr)], depth + 1, row_reads, out, in_loop)
+            return
+        if k == "rec":
+            self.emit_write(out, ("field", t.attr), val, gs, via, in_loop)
+        elif k == "field":
+            self.emit_write(out, ("elem", base[1], t.attr), val, gs, via, in_loop)
+        elif k == "bd":
+            self.emit_write(out, ("block", "|".join(base[1]), t.attr), val, gs, via, in_loop)
+        elif k == "blk":
+            if t.attr == "data":
+                out.append(("invalidate", "|".join(base[1]), list(gs)))           # `data` re-assigned: a cache keyed on it is dropped
+                out.append(("other", "the data element of block %s is replaced by assignment: %s" % ("|".join(base[1]), src[:80])))
+            elif t.attr in self.cache_attrs:
+                out.append(("invalidate", "|".join(base[1]), list(gs)))
+            else:
+                out.append(("other", src[:120]))
+        elif "_record" in src or "tagged_blocks" in src:
+            out.append(("other", src[:120]))
+        else:
+            out.append(("call", src[:80], list(gs)))                              # attribute of some other object (`node._bbox = None`)
+
+    def calls_in(self, node, env, cls, gs, via, depth, row_reads, out, in_loop):
+        calls = [n for n in ast.walk(node) if isinstance(n, ast.Call)]
+        calls.sort(key=lambda n: (getattr(n, "end_lineno", 0), getattr(n, "end_col_offset", 0)))
+        for c in calls:
+            self.call_stmt(c, env, cls, gs, via, depth, row_reads, out, in_loop)
+
+    def call_stmt(self, c, env, cls, gs, via, depth, row_reads, out, in_loop):
+        f = c.func
+        src = ast.unparse(c)
+        if not isinstance(f, ast.Attribute):
+            return
+        is_super = isinstance(f.value, ast.Call) and isinstance(f.value.func, ast.Name) and f.value.func.id == "super"
+        base = ("self",) if is_super else self.ev(f.value, env, cls)
+        k = base[0]
+        if k == "blocks":
+            if f.attr == "set_data" and c.args:
+                key = _tagname(c.args[0])
+                if key is None:
+                    out.append(("other", src[:120]))
+                    return
+                v = self.ev(c.args[1], env, cls) if len(c.args) == 2 and not c.keywords else ("derived", src, [])
+                if in_loop:
+                    out.append(("other", "set_data inside a loop: " + src[:80]))
+                else:
+                    out.append(("replace", key, _value_attr((key,)),
+                                "arg" if _is_arg(v) and v[1] in (None, self.argc) else "derived", list(gs), list(via)))
+            elif f.attr in ("get", "get_data", "keys", "items", "values", "__contains__"):
+                pass
+            else:
+                out.append(("other", src[:120]))
+            return
+        if k == "bd":
+            # a method of the element object: interpret it with self = the data element
+            kls = _elem_class(base[1])
+            m = getattr(kls, f.attr, None) if kls is not None else None
+            try:
+                mfn = ast.parse(textwrap.dedent(inspect.getsource(m))).body[0]
+            except Exception:  # noqa
+                out.append(("other", "method %s of the element of block %s" % (f.attr, "|".join(base[1]))))
+                return
+            params = [a.arg for a in mfn.args.args]
+            e2 = {params[0]: base}
+            for p, a in zip(params[1:], c.args):
+                e2[p] = self.ev(a, env, cls)
+            self.elem_block(mfn.body, e2, base, gs, via + ["%s.%s" % (kls.__name__, f.attr)], out, in_loop)
+            return
+        if k == "self":
+            mc = self.resolve(f.attr, "method", after=cls if is_super else None)
+            if mc is None:
+                return
+            if depth >= self.MAXD:
+                out.append(("other", "call nesting too deep at " + src[:80]))
+                return
+            fn = self.api.methods[(mc, f.attr, "method")]
+            if not self.may_write(fn):
+                out.append(("call", "self.%s()" % f.attr, list(gs)))
+                return
+            params = [a.arg for a in fn.args.args]
+            e2 = {params[0]: ("self",)}
+            for p, a in zip(params[1:], c.args):
+                v = self.ev(a, env, cls)
+                e2[p] = ("arg", None) if (v[0] == "const" and self.argless) else v
+            for p, d in zip(params[len(params) - len(fn.args.defaults):], fn.args.defaults):
+                e2.setdefault(p, self.ev(d, {}, mc))
+            self.block(fn.body, e2, mc, gs, via + ["%s.%s" % (mc, f.attr)], depth + 1, row_reads, out, in_loop)
+            return
+        if k in ("rec", "field", "elem", "blk", "ba"):
+            out.append(("other", src[:120]))
+            return
+        if k == "psd" or (k == "derived" and "_psd" in src):
+            out.append(("call", src[:80], list(gs)))
+            return
+        # methods of the argument, of locals, of other layers: no attribute storage of this layer
+        if "_record" in src or "tagged_blocks" in src:
+            out.append(("other", src[:120]))
+
+    def elem_block(self, stmts, env, bd, gs, via, out, in_loop):
+        for st in stmts:
+            if isinstance(st, ast.Expr) and isinstance(st.value, ast.Constant):
+                continue
+            if isinstance(st, ast.Assign) and len(st.targets) == 1 and isinstance(st.targets[0], ast.Attribute) \
+                    and self.ev(st.targets[0].value, env, None) == bd:
+                self.emit_write(out, ("block", "|".join(bd[1]), st.targets[0].attr), self.ev(st.value, env, None), gs, via, in_loop)
+            elif isinstance(st, ast.Return) and st.value is None:
+                out.append(("ret", list(gs)))
+            else:
+                out.append(("other", "in a method of the element of block %s: %s" % ("|".join(bd[1]), ast.unparse(st)[:80])))
+
+    @staticmethod
+    def may_write(fn):
+        for n in ast.walk(fn):
+            if isinstance(n, ast.Attribute) and isinstance(n.ctx, ast.Store) and not n.attr.startswith("_"):
+                return True
+            if isinstance(n, ast.Attribute) and n.attr in ("_record", "tagged_blocks", "set_data", "locks", "_setting"):
+                return True
+            if isinstance(n, (ast.Raise, ast.Assert)):
+                return True
+        return False
+
+    def setter_effs(self, name, row_reads, argc, cache_attrs):
+        """effects of `self.<name> = value` on an object of the row class"""
+        self.argc, self.argless, self.cache_attrs = argc, False, cache_attrs
+        out = []
+        pc = self.is_property(name)
+        sc = self.resolve(name, "setter")
+        if sc is None:
+            return [("refuse", "AttributeError: property %s.%s has no setter" % (pc, name), [])]
+        fn = self.api.methods[(sc, name, "setter")]
+        params = [a.arg for a in fn.args.args]
+        env = {params[0]: ("self",)}
+        if len(params) > 1:
+            env[params[1]] = ("arg", None)
+        self.run(sc, fn, env, [], [], 0, row_reads, out)
+        return _trim(out)
+
+    def method_effs(self, name, row_reads, cache_attrs):
+        self.argc, self.cache_attrs = None, cache_attrs
+        mc = self.resolve(name, "method")
+        fn = self.api.methods[(mc, name, "method")]
+        params = [a.arg for a in fn.args.args]
+        self.argless = len(params) == 1
+        env = {params[0]: ("self",)}
+        if len(params) > 1:
+            env[params[1]] = ("arg", None)
+        out = []
+        self.run(mc, fn, env, [], [], 0, row_reads, out)
+        return _trim(out)
+
+
+def _trim(effs):
+    while effs and effs[-1][0] == "ret":
+        effs = effs[:-1]
+    return effs
+
+
+# ---- the writers -------------------------------------------------------------------------------------
+def _writer_state():
+    """-> (caches [(owner, attr, dropOnReplace)], other [str], consulted {class: [attrs]})"""
+    import attr
+    from psd_tools.constants import Tag
+    from psd_tools.psd import layer_and_mask as LM, tagged_blocks as TB
+    classes = [TB.TaggedBlock, TB.TaggedBlocks, LM.LayerRecord, LM.LayerFlags]
+    for key in ("UNICODE_LAYER_NAME", "SECTION_DIVIDER_SETTING", "NESTED_SECTION_DIVIDER_SETTING", "PROTECTED_SETTING"):
+        kls = TB.TYPES.get(getattr(Tag, key))
+        if kls is not None and kls not in classes:
+            classes.append(kls)
+    caches, other, consulted = [], [], {}
+    for kls in classes:
+        todo, seen, reads, stores = ["write"], set(), set(), set()
+        while todo:
+            m = todo.pop()
+            if m in seen:
+                continue
+            seen.add(m)
+            f = None
+            for c in kls.__mro__:
+                if m in c.__dict__:
+                    f = c.__dict__[m]
+                    break
+            f = getattr(f, "__func__", f)
+            if isinstance(f, property):
+                f = f.fget
+            if f is None or not callable(f):
+                continue
+            try:
+                fn = ast.parse(textwrap.dedent(inspect.getsource(f))).body[0]
+            except Exception as e:  # noqa
+                other.append("%s.%s: source not readable (%s)" % (kls.__name__, m, type(e).__name__))
+                continue
+            for d in getattr(fn, "decorator_list", []):
+                if re.search(r"cache|memo", ast.unparse(d)):
+                    other.append("%s.%s is decorated with %s" % (kls.__name__, m, ast.unparse(d)))
+            selfname = fn.args.args[0].arg if fn.args.args else "self"
+            for n in ast.walk(fn):
+                if isinstance(n, ast.Attribute) and isinstance(n.value, ast.Name) and n.value.id == selfname:
+                    (stores if isinstance(n.ctx, ast.Store) else reads).add(n.attr)
+                    if callable(getattr(kls, n.attr, None)) or isinstance(getattr(kls, n.attr, None), property):
+                        todo.append(n.attr)
+        fields = {f.name.lstrip("_"): f for f in attr.fields(kls)} if attr.has(kls) else {}
+        fields.update({f.name: f for f in attr.fields(kls)} if attr.has(kls) else {})
+        consulted[kls.__name__] = sorted(reads | stores)
+        for a in sorted(reads | stores):
+            f = fields.get(a)
+            is_code = a not in fields and hasattr(kls, a) and not a.startswith("__") and (
+                callable(getattr(kls, a)) or isinstance(getattr(kls, a), (property, set, frozenset, tuple, dict, bytes, str, int)))
+            if a in stores or (f is not None and not f.init) or (f is None and not is_code):
+                drop = False
+                if attr.has(kls):
+                    for g in attr.fields(kls):
+                        hook = g.on_setattr
+                        hooks = hook if isinstance(hook, (list, tuple)) else [hook] if hook else []
+                        for h in hooks:
+                            try:
+                                if g.name == "data" and re.search(r"\b%s\s*=\s*None" % re.escape(a), inspect.getsource(h)):
+                                    drop = True
+                            except Exception:  # noqa
+                                pass
+                caches.append((kls.__name__, a, drop))
+    return caches, other, consulted
+
+
+# ---- the table ---------------------------------------------------------------------------------------
+def _layer_classes():
+    import psd_tools.api.layers as L
+    try:
+        import psd_tools.api.adjustments  # noqa: F401  (subclasses register themselves)
+    except Exception:  # noqa
+        pass
+    out, todo = [], [L.Layer]
+    while todo:
+        c = todo.pop(0)
+        if c in out:
+            continue
+        out.append(c)
+        todo += c.__subclasses__()
+    return out
+
+
+def read_table():
+    api = _Api()
+    classes = [c for c in _layer_classes() if c.__name__ in api.classes]
+    live = {c.__name__: c for c in classes}
+    caches, wother, consulted = _writer_state()
+    cache_attrs = {a for _, a, _ in caches}
+    # attributes: properties with a setter in some layer class; methods assigning attribute storage
+    attrs, methods = [], []
+    for c in classes:
+        for name, obj in vars(c).items():
+            if name.startswith("_"):
+                continue
+            if isinstance(obj, property) and obj.fset is not None and name not in attrs:
+                attrs.append(name)
+    per_class = {}
+    for c in classes:
+        acc = _Acc(api, live, c.__name__)
+        rows = []
+        for name in attrs:
+            if acc.is_property(name) is None:
+                continue
+            val = acc.reads(name)
+            comps = val[1] if val[0] == "tuple" else [val]
+            foot = _locs(val) or [("other", "getter of %s returns no stored value" % name)]
+            for j, comp in enumerate(comps):
+                rd = _locs(comp) or [("other", "getter of %s returns no stored value" % name)]
+                label = name if len(comps) == 1 else "%s.%d" % (name, j)
+                rows.append((label, rd, acc.setter_effs(name, rd, None if len(comps) == 1 else j, cache_attrs), foot))
+        # methods: public, not a structural mutator, whose flattened body assigns attribute storage (`lock`, `unlock`)
+        for mc in acc.mro:
+            for (k, name, kind), fn in sorted(api.methods.items(), key=lambda kv: kv[1].lineno):
+                if k != mc or kind != "method" or name.startswith("_") or any(r[0] == name for r in rows):
+                    continue
+                if acc.resolve(name, "method") != mc or len(fn.args.args) > 2 or fn.args.vararg or fn.args.kwarg or fn.args.kwonlyargs:
+                    continue
+                srcf = ast.unparse(fn)
+                if re.search(r"_layers|_parent|_channels|yield", srcf):
+                    continue
+                if any(ast.unparse(d) in ("classmethod", "staticmethod") for d in fn.decorator_list):
+                    continue
+                try:
+                    effs = acc.method_effs(name, [], cache_attrs)
+                except Exception:  # noqa
+                    continue
+                if not any(e[0] in ("write", "replace") for e in effs):
+                    continue
+                # its getter: the property of the class that reads what the method assigns the argument to
+                target = [(e[1] if e[0] == "write" else ("block", e[1], e[2])) for e in effs
+                          if (e[0] == "write" and e[2] == "arg") or (e[0] == "replace" and e[3] == "arg")]
+                rd = None
+                for (k2, pname, kind2) in sorted(api.methods):
+                    if kind2 == "getter" and k2 in acc.mro and not pname.startswith("_") and acc.is_property(pname) == k2:
+                        try:
+                            cand = _locs(acc.reads(pname))
+                        except Exception:  # noqa
+                            continue
+                        if cand and cand[0] in target:
+                            rd = cand
+                            break
+                if rd is None:
+                    rd = [("other", "no property of the class reads what %s() assigns" % name)]
+                rows.append((name, rd, acc.method_effs(name, rd, cache_attrs), rd))
+        per_class[c.__name__] = rows
+    # classes with identical rows share one representative (the first in reflection order)
+    reps, class_map = [], []
+    for c in classes:
+        key = repr(per_class[c.__name__])
+        for r in reps:
+            if repr(per_class[r]) == key:
+                class_map.append((c.__name__, r))
+                break
+        else:
+            reps.append(c.__name__)
+            class_map.append((c.__name__, c.__name__))
+    rows = [(a, r, rd, effs, foot) for r in reps for a, rd, effs, foot in per_class[r]]
+    return {"rows": rows, "classes": class_map, "caches": caches, "writer_other": wother, "consulted": consulted}
+
+
+def _lean_loc(l):
+    if l[0] == "field":
+        return "(.field %s)" % _lstr(l[1])
+    if l[0] == "elem":
+        return "(.elem %s %s)" % (_lstr(l[1]), _lstr(l[2]))
+    if l[0] == "block":
+        return "(.block %s %s)" % (_lstr(l[1]), _lstr(l[2]))
+    if l[0] == "derived":
+        return "(.derived %s)" % _lstr(l[1])
+    return "(.other %s)" % _lstr(str(l[1]))
+
+
+def _lean_guard(g):
+    text, kind, neg = g
+    k = ".free" if kind == "opaque" else ".stored" if kind == "stored" else "(.present %s)" % _lstr(kind.split(":", 1)[1])
+    return "⟨%s, %s, %s⟩" % (_lstr(text), k, "true" if neg else "false")
+
+
+def _lean_eff(e):
+    gs = lambda xs: "[" + ", ".join(_lean_guard(g) for g in xs) + "]"
+    ss = lambda xs: "[" + ", ".join(_lstr(x) for x in xs) + "]"
+    if e[0] == "refuse":
+        return ".refuse %s %s" % (_lstr(e[1]), gs(e[2]))
+    if e[0] == "ret":
+        return ".ret %s" % gs(e[1])
+    if e[0] == "write":
+        return ".write %s .%s %s %s" % (_lean_loc(e[1]), e[2], gs(e[3]), ss(e[4]))
+    if e[0] == "replace":
+        return ".replace %s %s .%s %s %s" % (_lstr(e[1]), _lstr(e[2]), e[3], gs(e[4]), ss(e[5]))
+    if e[0] == "invalidate":
+        return ".invalidate %s %s" % (_lstr(e[1]), gs(e[2]))
+    if e[0] == "call":
+        return ".call %s %s" % (_lstr(e[1]), gs(e[2]))
+    return ".other %s" % _lstr(str(e[1]))
+
+
+def gen_attr_table(ctx):
+    try:
+        info = read_table()
+    except Exception as e:  # noqa: a source the reader cannot digest is a broken tie, never an infrastructure error
+        info = {"rows": [("<extractor>", "<extractor>", [("other", "unread")],
+                          [("other", "extract_c16.read_table failed: %s: %s" % (type(e).__name__, e))], [("other", "unread")])],
+                "classes": [], "caches": [], "writer_other": ["extract_c16.read_table failed"], "consulted": {}}
+        ctx.notes.append("extract_c16.read_table could not read the current source (%s: %s): sentinel table written"
+                         % (type(e).__name__, str(e)[:200]))
+    rows = ",\n".join("    ⟨%s, %s, [%s], [%s],\n      [%s]⟩" % (
+        _lstr(a), _lstr(c), ", ".join(_lean_loc(l) for l in rd), ", ".join(_lean_loc(l) for l in foot),
+        ",\n       ".join(_lean_eff(e) for e in effs))
+        for a, c, rd, effs, foot in info["rows"])
+    caches = ", ".join("⟨%s, %s, %s⟩" % (_lstr(o), _lstr(a), "true" if d else "false") for o, a, d in info["caches"])
+    src = f"""import PsdVerif.Model.AttrTable
+namespace PsdVerif.Generated.AttrTable
+open PsdVerif.AttrTable
+
+/-- Every public attribute of every layer class (see harness/extract_c16.py, part 2): the getter's read path and the
+    setter's effects, delegated setters resolved through the MRO of the row's class and inlined; what the writers
+    consult besides the current field values. -/
+def table : Table :=
+  {{ rows := [
+{rows}],
+    caches := [{caches}],
+    writerOther := [{", ".join(_lstr(x) for x in info["writer_other"])}] }}
+
+/-- every layer class of the API and the class whose rows stand for it (identical rows are emitted once) -/
+def classes : List (String × String) := [{", ".join("(%s, %s)" % (_lstr(a), _lstr(b)) for a, b in info["classes"])}]
+
+/-- attributes of self read or assigned in the write path of each writer class -/
+def writerConsults : List (String × List String) := [{", ".join("(%s, [%s])" % (_lstr(k), ", ".join(_lstr(x) for x in v)) for k, v in info["consulted"].items())}]
+
+end PsdVerif.Generated.AttrTable
+"""
+    ctx.write_generated("AttrTable", src)
+    return {"rows": len(info["rows"]), "classes": len(info["classes"]),
+            "representatives": sorted({b for _, b in info["classes"]}),
+            "caches": info["caches"], "writer_other": info["writer_other"]}
